@@ -289,7 +289,7 @@ Price/fees can be:
         let all_tickers: Vec<_> = all_disposals
             .iter()
             .map(|d| d.ticker.as_str())
-            .collect::<std::collections::HashSet<_>>()
+            .collect::<std::collections::BTreeSet<_>>()
             .into_iter()
             .collect();
 
